@@ -21,6 +21,8 @@ def sp(kind):
             s = world.make_sp(TMP[0], want_response_signed=False)
         elif kind == 'twokeys':
             s = world.make_sp(TMP[0], want_response_signed=False, want_assertions_signed=True, enc=('spXenc2', 'spXenc1'))
+        elif kind == 'twokeys-wr':
+            s = world.make_sp(TMP[0], want_response_signed=True, enc=('spXenc2', 'spXenc1'))
         elif kind == 'twocerts':
             s = world.make_sp(TMP[0], [world.idp_md(keys=(('idpA2', 'signing'), ('idpA', 'signing')))], want_response_signed=True)
         _c[('sp', kind)] = s
@@ -42,6 +44,10 @@ def tamper(x):
     return x.replace('SessionIndex="s1"', 'SessionIndex="s2"', 1)
 
 
+def tamper_resp(x):
+    return x.replace('InResponseTo="req1"', 'InResponseTo="req2"', 1)
+
+
 def doc(name):
     if name not in _c:
         env.Clock.set(env.BASE)
@@ -51,6 +57,8 @@ def doc(name):
             'ass-signed': lambda: forge.build(b, sign_ass='idpA'),
             'both-signed': lambda: forge.build(b, sign_resp='idpA', sign_ass='idpA'),
             'enc-ass-signed': lambda: forge.build(b, sign_ass='idpA', encrypt='spXenc1'),
+            'enc-resp-signed': lambda: forge.build(b, sign_resp='idpA', encrypt='spXenc1'),
+            'enc-resp-signed-BAD': lambda: forge.build(b, sign_resp='idpA', encrypt='spXenc1', mutate_final=tamper_resp),
             'unsigned': lambda: forge.build(b),
             'resp-signed-BAD': lambda: forge.build(b, sign_resp='idpA', mutate_final=tamper),
             'ass-signed-BAD': lambda: forge.build(b, sign_ass='idpA', mutate_after_ass_sign=tamper),
@@ -106,9 +114,27 @@ def op_create_request():
     return f
 
 
-def op_metadata(signed_ok):
+class _Resp(object):
+    def __init__(self, body):
+        self.status_code = 200
+        self.content = body.encode('utf-8')
+        self.text = body
+
+
+class _Http(object):
+    def __init__(self, pages):
+        self.pages = pages
+
+    def send(self, url, *a, **k):
+        return _Resp(self.pages[url])
+
+
+def op_metadata(signed_ok, via='store'):
+    """A signed metadata feed with a pinned signer certificate, consumed the way applications consume it: through
+    MetadataStore.load('remote', url=, cert=) (the store ignores load()'s return value) or MetaDataFile directly.
+    accept = the feed's entity is served afterwards."""
     def f():
-        from saml2_tophat.mdstore import MetaDataFile
+        from saml2_tophat.mdstore import MetaDataFile, MetadataStore
         from saml2_tophat.attribute_converter import ac_factory
         k = 'mdfile-%s' % signed_ok
         if k not in _c:
@@ -121,10 +147,17 @@ def op_metadata(signed_ok):
             import os
             p = os.path.join(TMP[0], 'fed-%s.xml' % signed_ok)
             open(p, 'w').write(x)
-            _c[k] = p
+            _c[k] = (p, x)
+        path, text = _c[k]
+        node = 'urn:oasis:names:tc:SAML:2.0:metadata:EntityDescriptor'
         try:
-            md = MetaDataFile(ac_factory(), _c[k], cert=world.crt('mdsigner'), security=sp('wr').sec,
-                              node_name='urn:oasis:names:tc:SAML:2.0:metadata:EntityDescriptor')
+            if via == 'store':
+                mds = MetadataStore(ac_factory(), sp('wr').config)
+                mds.http = _Http({'https://md.example/fed': text})
+                mds.load('remote', url='https://md.example/fed', cert=world.crt('mdsigner'), node_name=node)
+                served = 'urn:vp:fed-idp' in list(mds.keys())
+                return {'accept': served, 'exc': None}
+            md = MetaDataFile(ac_factory(), path, cert=world.crt('mdsigner'), security=sp('wr').sec, node_name=node)
             ok = md.load()
             served = list(md.keys()) if hasattr(md, 'keys') else []
             return {'accept': bool(served) and ok is not False, 'exc': None, 'loaded': ok}
@@ -140,7 +173,7 @@ def build_ops():
     if OPS:
         return OPS
     for spk, d in (('wr', 'resp-signed'), ('wa', 'ass-signed'), ('both', 'both-signed'), ('wa', 'enc-ass-signed'),
-                   ('twocerts', 'resp-signed'), ('twokeys', 'enc-ass-signed'), ('none', 'ass-signed'), ('none', 'resp-signed')):
+                   ('twocerts', 'resp-signed'), ('twokeys', 'enc-ass-signed'), ('wr', 'enc-resp-signed'), ('twokeys-wr', 'enc-resp-signed'), ('none', 'ass-signed'), ('none', 'resp-signed')):
         OPS['parse:%s:%s' % (spk, d)] = ('verify', op_parse(spk, d), True)
         OPS['parse:%s:%s-BAD' % (spk, d)] = ('verify', op_parse(spk, d + '-BAD'), False)
     OPS['parse:wa:enc-wrongkey'] = ('verify', op_parse('wa', 'enc-wrongkey'), False)
@@ -153,6 +186,8 @@ def build_ops():
     OPS['request:only-valid-cert:req-signed-BAD'] = ('verify', op_request('only-valid-cert', 'req-signed-BAD'), False)
     OPS['metadata:signed'] = ('verify', op_metadata(True), True)
     OPS['metadata:signed-BAD'] = ('verify', op_metadata(False), False)
+    OPS['metadata-file:signed'] = ('verify', op_metadata(True, 'file'), True)
+    OPS['metadata-file:signed-BAD'] = ('verify', op_metadata(False, 'file'), False)
     OPS['create:sign_assertion'] = ('protect', op_create_response(sign_assertion=True), {'ass': True})
     OPS['create:sign_response'] = ('protect', op_create_response(sign_response=True), {'resp': True})
     OPS['create:sign_both'] = ('protect', op_create_response(sign_response=True, sign_assertion=True), {'resp': True, 'ass': True})
@@ -165,7 +200,7 @@ def build_ops():
 def run_op(name, plan):
     env.Clock.set(env.BASE)
     env.reset_rng()
-    env.Seam.reset({(int(k) if k != 'all' else 'all'): v for k, v in plan.items()})
+    env.Seam.reset({(k if (k == 'all' or str(k).startswith('from:')) else int(k)): v for k, v in plan.items()})
     kind, fn, _exp = build_ops()[name]
     obs = fn()
     log = [{'cmd': e['cmd'], 'node_id': (e.get('info') or {}).get('node_id'), 'genuine': bool(e.get('genuine')),
@@ -217,6 +252,11 @@ def evaluate(task):
                 need_dec = any(e['cmd'] == '--decrypt' and e['genuine'] for e in base_log)
                 if need_dec and not any(e['cmd'] == '--decrypt' and e['genuine'] for e in log):
                     bad = 'identity-without-a-genuine-decryption'
+                # the tool is run again only while something is still encrypted, so an accepted response ends its
+                # decryption runs with a successful one; otherwise the identity stems from an earlier, aborted pass
+                decs = [e for e in log if e['cmd'] == '--decrypt']
+                if need_dec and decs and not decs[-1]['genuine'] and not bad:
+                    bad = 'identity-although-the-last-decryption-run-failed'
         res = {'accept': obs['accept'], 'exc': obs.get('exc')}
     else:
         if obs['returned']:
@@ -242,6 +282,17 @@ def plans_for(name, thorough):
             out.append({str(i): f})
     for f in cat:
         out.append({'all': f})
+    # the first i invocations genuine, every later one (also those a retry adds) faulty
+    for i in range(1, n):
+        for f in cat:
+            out.append({'from:%d' % i: f})
+    # ... and the same restricted to one command: e.g. the first decryption genuine, every later decryption faulty,
+    # verifications untouched
+    for cmd in sorted(set(e['cmd'] for e in log)):
+        idx = [i for i, e in enumerate(log) if e['cmd'] == cmd]
+        for i in idx[1:] + [idx[-1] + 1]:
+            for f in cat:
+                out.append({'from:%d:%s' % (i, cmd): f})
     if thorough and n >= 2:
         for i, j in itertools.combinations(range(n), 2):
             for f, g in itertools.product(cat, cat):
@@ -280,8 +331,10 @@ def run(ctx):
             _obs, blog = BASE[name]
             sites = []
             for kk in plan:
-                if kk != 'all' and int(kk) < len(blog):
+                if kk != 'all' and not str(kk).startswith('from:') and int(kk) < len(blog):
                     sites.append(blog[int(kk)]['cmd'])
+                elif str(kk).startswith('from:'):
+                    sites.append('from:' + (kk.split(':', 2)[2] if kk.count(':') > 1 else blog[int(kk[5:])]['cmd']))
             ctx.violation({'kind': r['bad'].split(':')[0], 'op': name, 'plan': plan, 'faults': sorted(set(plan.values())),
                            'site': sorted(set(sites)) or ['all']}, {'detail': r['bad'], 'observed': {k: v for k, v in r.items() if k != 'bad'}})
     inv = {name: [e['cmd'] for e in BASE[name][1]] for name in ops}
@@ -289,7 +342,7 @@ def run(ctx):
         'level': 'fault_enumeration',
         'coverage': {
             'evaluations': len(tasks), 'distinct_nontrivial': len(nontriv), 'exhaustive': True,
-            'rule': 'for each of %d operations (SP parse of response-/assertion-/both-signed, encrypted, two metadata certificates, two decryption keys, each also with an invalid signature; IdP parse of signed/unsigned requests with and without want_authn_requests_signed; signed metadata load; create_authn_response with sign/encrypt combinations; create_authn_request(sign)) the fault-free invocation sequence is learnt, then every fault of the %d-entry catalogue is injected at every invocation ordinal, and at every invocation%s; non-trivial = plans for operations that invoke the tool at least once' % (len(ops), len(faults.CATALOGUE), '; plus all pairs of (ordinal, fault)' if ctx.thorough else ''),
+            'rule': 'for each of %d operations (SP parse of response-/assertion-/both-signed, encrypted, two metadata certificates, two decryption keys, each also with an invalid signature; IdP parse of signed/unsigned requests with and without want_authn_requests_signed; signed metadata load; create_authn_response with sign/encrypt combinations; create_authn_request(sign)) the fault-free invocation sequence is learnt, then every fault of the %d-entry catalogue is injected at every invocation ordinal, at every invocation, and at every invocation from ordinal i on (i >= 1, including invocations a retry adds; also restricted to one command, e.g. every decryption after the first)%s; non-trivial = plans for operations that invoke the tool at least once' % (len(ops), len(faults.CATALOGUE), '; plus all pairs of (ordinal, fault)' if ctx.thorough else ''),
             'samples': [{'op': tasks[i][0], 'plan': tasks[i][1], 'outcome': res[i]} for i in (0, len(tasks) // 2, len(tasks) - 1)],
             'operations': sorted(ops), 'invocation_sequences': inv, 'fault_catalogue': faults.CATALOGUE,
             'distinct_outcomes': len(hist), 'outcome_histogram': hist,
